@@ -56,6 +56,18 @@ type Sock struct {
 	Calls      int       // write/writev/sendfile calls answered
 	ZeroWrites int       // write(2) calls with an empty buffer (a real kernel answers 0, nil: the caller's loop spins)
 	Consumed   int       // script entries consumed
+	Kern       Kern      // optional emulated kernel (epoll.go); nil = scripted answers
+}
+
+// Kern is an emulated kernel behind a simulated socket (see epoll.go). When set on a Sock it replaces the script:
+//   - Send is asked for every write/writev/sendfile with the number of bytes the caller offers; the answer is
+//     applied exactly like a scripted one (Took N accepts min(N, offered) bytes and appends them to Wire);
+//   - Recv answers every read(2) (without a Kern a simulated socket never has data: EAGAIN).
+// epoll_ctl and close need no hook: they are recorded in Sock.Epoll / Sock.Closed, which a Kern reads when it is
+// next asked. A nil Kern (every harness that only scripts answers) leaves all paths as they were.
+type Kern interface {
+	Send(s *Sock, offered int) Ans
+	Recv(s *Sock, b []byte) (int, error)
 }
 
 var (
@@ -112,8 +124,11 @@ func lookup(fd int) *Sock {
 	return s
 }
 
-func (s *Sock) next() Ans {
+func (s *Sock) next(offered int) Ans {
 	s.Calls++
+	if s.Kern != nil {
+		return s.Kern.Send(s, offered)
+	}
 	if len(s.Script) == 0 {
 		return Ans{Kind: EAgain}
 	}
@@ -148,7 +163,7 @@ func Write(fd int, b []byte) (int, error) {
 		s.ZeroWrites++
 		return -1, syscall.EAGAIN
 	}
-	a := s.next()
+	a := s.next(len(b))
 	if a.Kind != Took {
 		return -1, failure(a)
 	}
@@ -172,13 +187,18 @@ func SyscallWritev(trap, a1, a2, a3 uintptr) (uintptr, uintptr, syscall.Errno) {
 	if s == nil || s.Closed > 0 {
 		return ^uintptr(0), 0, syscall.EBADF
 	}
-	a := s.next()
+	cnt := int(a3)
+	offered := 0
+	for i := 0; i < cnt; i++ {
+		iov := (*syscall.Iovec)(unsafe.Pointer(a2 + uintptr(i)*unsafe.Sizeof(syscall.Iovec{})))
+		offered += int(iov.Len)
+	}
+	a := s.next(offered)
 	if a.Kind != Took {
 		return ^uintptr(0), 0, failure(a)
 	}
 	left := a.N
 	total := 0
-	cnt := int(a3)
 	for i := 0; i < cnt && left > 0; i++ {
 		iov := (*syscall.Iovec)(unsafe.Pointer(a2 + uintptr(i)*unsafe.Sizeof(syscall.Iovec{})))
 		l := int(iov.Len)
@@ -205,7 +225,7 @@ func Sendfile(outfd int, infd int, offset *int64, count int) (int, error) {
 	if s == nil || s.Closed > 0 {
 		return -1, syscall.EBADF
 	}
-	a := s.next()
+	a := s.next(count)
 	if a.Kind != Took {
 		return -1, failure(a)
 	}
@@ -236,6 +256,9 @@ func Sendfile(outfd int, infd int, offset *int64, count int) (int, error) {
 func Read(fd int, b []byte) (int, error) {
 	if fd < SimBase {
 		return syscall.Read(fd, b)
+	}
+	if s := lookup(fd); s != nil && s.Kern != nil {
+		return s.Kern.Recv(s, b)
 	}
 	return -1, syscall.EAGAIN
 }
